@@ -567,15 +567,15 @@ def check_C05(tier, seed, rest):
     a = engine_a(tier, seed)
     b = engine_b(tier, seed)
     v = [t_violation(f) for f in t["findings"] if f["kind"] in ("trace_read", "trace_end", "trace_endb", "cfg_diff", "crash")]
-    v += [as_violation(f) for f in a["findings"] if f["kind"] in ("cfg_diff", "crash")]
-    v += [b_violation(f) for f in b["findings"] if f["kind"] in ("crash", "badslice")]
+    v += [as_violation(f) for f in a["findings"] if f["kind"] in ("cfg_diff", "crash", "guard_diff")]
+    v += [b_violation(f) for f in b["findings"] if f["kind"] in ("crash", "badslice", "guard_diff")]
     defs_path, metas, _ = capture(defs, "base")
     bins = build_subjects(metas, REL_CFGS, "base")
     rv, rcov = source_read_check({c: bins[c] for c in ("tc", "tc_safe", "tc_rel", "tc_safe_rel")})
     v += rv
     cov = b_coverage(b, t, dict(rcov, configurations=REL_CFGS,
                                  spec_properties="Read conjunct of LexTrace (Some <=> offset+size <= len) on every hooked read; End/EndB conjuncts (span inside the source); SourceRead.BoundsRule; "
-                                                 "event-by-event equality of default / forbid_unsafe / release builds; inputs are exactly-sized heap allocations of every length 0..17, 23..25, 31..33, 40"))
+                                                 "event-by-event equality of default / forbid_unsafe / release builds; inputs are exactly-sized heap allocations of every length 0..17, 23..25, 31..33, 40; every replayed input is lexed again embedded in a larger buffer with three choices of neighbouring bytes (last byte repeated, UTF-8 continuation bytes, the source repeated) and must give the identical reply"))
     cov["states"] = cov["states"] + rcov["states"]
     finish("C05", tier, seed, "model_checking", cov, v, t0,
            ASSUME_B + ["all raw reads and unchecked slices of logos go through LexerInternal::read / Lexer::span (the two hooked choke points); an access that bypasses both (e.g. a changed Chunk::from_ptr) is outside what a TLA+ trace check can see"])
